@@ -14,6 +14,7 @@ CONSTANTS
   MaxRejects = 0
   Policies = {"ALL"}
   UseCheckpoint = FALSE
+  MaxPause = 0
   Batch = 1
   IgnoreTaints = FALSE
 INVARIANTS NoBad_EpochGap
